@@ -50,6 +50,31 @@ lemma EndedBounds(start int, p Periods, i int, t int)
     ensures cnonneg(Ended(start, p, i, t)) && clte(Ended(start, p, i, t), Sum(p, i)) && cnonneg(Sum(p, i))
     induction i above 0
 
+// T is translation invariant in the start time
+lemma TShift(s int, p Periods, i int)
+    ensures T(s, p, i) == s + T(0, p, i)
+    induction i above 0
+
+// moving the start of a schedule and compensating in the first period keeps every absolute event time
+lemma ShiftFirst(sOld int, sNew int, p Periods, q Periods, i int, t int)
+    requires len(p) == len(q) && len(p) > 0
+    requires q[0].Length == p[0].Length + sOld - sNew && q[0].Amount == p[0].Amount
+    requires forall k int :: 1 <= k && k < len(p) ==> q[k] == p[k]
+    requires 1 <= i && i <= len(p)
+    ensures T(sNew, q, i) == T(sOld, p, i) && Sum(q, i) == Sum(p, i)
+    ensures Ended(sNew, q, i, t) == Ended(sOld, p, i, t) && Count(sNew, q, i, t) == Count(sOld, p, i, t)
+    induction i above 1
+
+// events are ordered in time, so the periods ended by t are a prefix: Ended = Sum of the first Count periods
+lemma EndedIsPrefix(start int, p Periods, i int, t int)
+    requires forall k int :: 0 <= k && k < len(p) ==> p[k].Length >= 0
+    requires 0 <= i && i <= len(p)
+    ensures Ended(start, p, i, t) == Sum(p, Count(start, p, i, t)) && 0 <= Count(start, p, i, t) && Count(start, p, i, t) <= i
+    ensures T(start, p, Count(start, p, i, t)) <= t || Count(start, p, i, t) == 0
+    use EndedAll(start, p, i - 1, t)
+    use TMono(start, p, i - 1, i)
+    induction i above 0
+
 // ------------------------------------------------------------------ C09: reading a schedule
 func ReadSchedule
     requires lens: forall k int :: 0 <= k && k < len(periods) ==> periods[k].Length >= 0
@@ -122,7 +147,7 @@ func ConjunctPeriods
     ensures min: Ended(result.0, result.2, len(result.2), t)
             == cmin(Ended(startTimePeriodA, periodsA, len(periodsA), t), Ended(startTimePeriodB, periodsB, len(periodsB), t))
     ensures total: Sum(result.2, len(result.2)) == cmin(Sum(periodsA, len(periodsA)), Sum(periodsB, len(periodsB)))
-    ensures lens: forall k int :: 0 <= k && k < len(result.2) ==> result.2[k].Length >= 0
+    ensures lens: forall k int :: 0 <= k && k < len(result.2) ==> result.2[k].Length >= 0 && cnonneg(result.2[k].Amount)
     ensures count: len(result.2) <= len(periodsA) + len(periodsB)
     loop 1,2,3 invariant idx: 0 <= idxPeriodsA && idxPeriodsA <= lenPeriodsA && 0 <= idxPeriodsB && idxPeriodsB <= lenPeriodsB
             && lenPeriodsA == len(periodsA) && lenPeriodsB == len(periodsB) && n >= 0 && n <= idxPeriodsA + idxPeriodsB
@@ -136,11 +161,33 @@ func ConjunctPeriods
     loop 1,2,3 invariant order: (idxPeriodsA < lenPeriodsA ==> T(startTime, out, n) <= nA && (idxPeriodsB > 0 ==> timePeriodsB <= nA))
             && (idxPeriodsB < lenPeriodsB ==> T(startTime, out, n) <= nB && (idxPeriodsA > 0 ==> timePeriodsA <= nB))
     loop 1,2,3 invariant min: Ended(startTime, out, n, t) == cmin(Ended(sA, periodsA, idxPeriodsA, t), Ended(sB, periodsB, idxPeriodsB, t))
-    loop 1,2,3 invariant lens: forall k int :: 0 <= k && k < n ==> out[k].Length >= 0
+    loop 1,2,3 invariant lens: forall k int :: 0 <= k && k < n ==> out[k].Length >= 0 && cnonneg(out[k].Amount)
     loop 1,2,3 back use SchedFrame(startTime, head(conjunctionPeriods), conjunctionPeriods, len(head(conjunctionPeriods)), t)
     loop 1,2,3 back use EndedAll(startTime, head(conjunctionPeriods), len(head(conjunctionPeriods)), t)
     loop 1,2,3 back use EndedAll(sA, periodsA, head(idxPeriodsA), t)
     loop 1,2,3 back use EndedAll(sB, periodsB, head(idxPeriodsB), t)
+
+// ------------------------------------------------------------------ C09: aligning two schedules to a common start
+func AlignSchedules
+    ghostvar t int
+    modifies elems(periodsA), elems(periodsB)
+    let s = imin(startTimePeriodA, startTimePeriodB)
+    let A2 = final(periodsA)
+    let B2 = final(periodsB)
+    ensures start: result.0 == s
+    ensures shapeA: len(A2) == len(periodsA) && (forall k int :: 1 <= k && k < len(periodsA) ==> A2[k] == periodsA[k])
+            && (len(periodsA) > 0 ==> A2[0].Amount == periodsA[0].Amount && A2[0].Length == periodsA[0].Length + startTimePeriodA - s)
+    ensures shapeB: len(B2) == len(periodsB) && (forall k int :: 1 <= k && k < len(periodsB) ==> B2[k] == periodsB[k])
+            && (len(periodsB) > 0 ==> B2[0].Amount == periodsB[0].Amount && B2[0].Length == periodsB[0].Length + startTimePeriodB - s)
+    ensures eventsA: len(periodsA) > 0 ==> T(s, A2, len(A2)) == T(startTimePeriodA, periodsA, len(periodsA))
+            && Ended(s, A2, len(A2), t) == Ended(startTimePeriodA, periodsA, len(periodsA), t) && Sum(A2, len(A2)) == Sum(periodsA, len(periodsA))
+    ensures eventsB: len(periodsB) > 0 ==> T(s, B2, len(B2)) == T(startTimePeriodB, periodsB, len(periodsB))
+            && Ended(s, B2, len(B2), t) == Ended(startTimePeriodB, periodsB, len(periodsB), t) && Sum(B2, len(B2)) == Sum(periodsB, len(periodsB))
+    ensures end: result.1 == imax(T(s, A2, len(A2)), T(s, B2, len(B2)))
+    use return ShiftFirst(startTimePeriodA, s, periodsA, final(periodsA), len(periodsA), t)
+    use return ShiftFirst(startTimePeriodB, s, periodsB, final(periodsB), len(periodsB), t)
+    use return TShift(s, final(periodsA), len(periodsA))
+    use return TShift(s, final(periodsB), len(periodsB))
 
 // ------------------------------------------------------------------ C08/C09: the clawback vesting account
 alias CVA github.com/haqq-network/haqq/x/vesting/types.ClawbackVestingAccount
@@ -188,6 +235,57 @@ func (ClawbackVestingAccount).GetLockedUpVestedCoins
     requires valid: ValidCVA(va)
     ensures lv: result == csub(VestedAt(va, time_unix(blockTime)), cmin(UnlockedAt(va, time_unix(blockTime)), VestedAt(va, time_unix(blockTime))))
     ensures nonneg: cnonneg(result)
+
+// C09: a new account is valid and keeps every release event of the given schedules; inputs are not mutated
+func NewClawbackVestingAccount
+    ghostvar u int
+    let s = time_unix(startTime)
+    requires lensL: forall k int :: 0 <= k && k < len(lockupPeriods) ==> lockupPeriods[k].Length >= 0 && cnonneg(lockupPeriods[k].Amount)
+    requires lensV: forall k int :: 0 <= k && k < len(vestingPeriods) ==> vestingPeriods[k].Length >= 0 && cnonneg(vestingPeriods[k].Amount)
+    requires sums: Sum(lockupPeriods, len(lockupPeriods)) == originalVesting && Sum(vestingPeriods, len(vestingPeriods)) == originalVesting
+    ensures fresh_account: result != nil && fresh(result)
+    ensures valid: ValidCVA(*result)
+    ensures fields: result.OriginalVesting == originalVesting && result.StartTime == startTime
+    ensures lockup: Ended(s, result.LockupPeriods, len(result.LockupPeriods), u) == Ended(s, lockupPeriods, len(lockupPeriods), u)
+    ensures vesting: Ended(s, result.VestingPeriods, len(result.VestingPeriods), u) == Ended(s, vestingPeriods, len(vestingPeriods), u)
+    ensures end: result.EndTime == imax(T(s, lockupPeriods, len(lockupPeriods)), T(s, vestingPeriods, len(vestingPeriods)))
+    use return SchedFrame(s, lockupPeriods, result.LockupPeriods, len(lockupPeriods), u)
+    use return SchedFrame(s, vestingPeriods, result.VestingPeriods, len(vestingPeriods), u)
+
+func (ClawbackVestingAccount).GetPassedPeriodCount
+    requires valid: ValidCVA(va)
+    ensures count: result == ite(time_unix(blockTime) <= time_unix(va.StartTime), 0,
+                                 Count(time_unix(va.StartTime), va.VestingPeriods, len(va.VestingPeriods), time_unix(blockTime)))
+    ensures range: 0 <= result && result <= len(va.VestingPeriods)
+
+// C09: clawback takes exactly the unvested amount, keeps every vested coin under min(old lockup, vested)
+func (ClawbackVestingAccount).ComputeClawback
+    ghostvar u int
+    let s = time_unix(va.StartTime)
+    let V = VestedAt(va, clawbackTime)
+    let na = result.0
+    modifies *va.BaseVestingAccount
+    requires valid: ValidCVA(va)
+    ensures amount: result.1 == csub(old(va.OriginalVesting), old(V)) && cnonneg(result.1)
+    ensures original: na.OriginalVesting == old(V)
+    ensures start: na.StartTime == va.StartTime && na.BaseVestingAccount == va.BaseVestingAccount
+    ensures vesting: len(na.VestingPeriods) <= len(va.VestingPeriods)
+            && (forall k int :: 0 <= k && k < len(na.VestingPeriods) ==> na.VestingPeriods[k] == va.VestingPeriods[k])
+            && Sum(na.VestingPeriods, len(na.VestingPeriods)) == old(V)
+    ensures lockup: Ended(s, na.LockupPeriods, len(na.LockupPeriods), u)
+            == cmin(Ended(s, va.LockupPeriods, len(va.LockupPeriods), u), ite(s <= u, old(V), coins_zero()))
+    ensures valid: ValidCVA(na)
+    ensures validate_accepts: s < na.EndTime
+    use return EndedIsPrefix(s, va.VestingPeriods, len(va.VestingPeriods), clawbackTime)
+    use return EndedBounds(s, va.VestingPeriods, len(va.VestingPeriods), clawbackTime)
+    use return EndedBounds(s, va.VestingPeriods, len(na.VestingPeriods), clawbackTime)
+    use return SchedFrame(s, va.VestingPeriods, na.VestingPeriods, len(na.VestingPeriods), clawbackTime)
+    use return TShift(s, na.VestingPeriods, len(na.VestingPeriods))
+    use return TMono(s, va.VestingPeriods, len(na.VestingPeriods), len(va.VestingPeriods))
+    use return TMono(s, na.VestingPeriods, 0, len(na.VestingPeriods))
+    unfold Ended(s, final(capPeriods), 1, u)
+    unfold T(s, final(capPeriods), 1)
+    unfold Sum(final(capPeriods), 1)
 
 // C08: locked = max(original - unlockedVested - trackedDelegated, unvested), between 0 and original
 func (ClawbackVestingAccount).LockedCoins
